@@ -266,14 +266,6 @@ class Canon(ast.NodeTransformer):
             return self.visit_If(ast.copy_location(ast.If(test=ie.test, body=[a], orelse=[b]), node), descend=False)
         return node
 
-    def visit_Expr(self, node):
-        # L.extend(X) as a statement is L += X (lists; a local name as receiver)
-        self.generic_visit(node)
-        v = node.value
-        if isinstance(v, ast.Call) and isinstance(v.func, ast.Attribute) and v.func.attr == "extend" and isinstance(v.func.value, ast.Name) and len(v.args) == 1 and not v.keywords:
-            return ast.copy_location(ast.AugAssign(target=ast.Name(id=v.func.value.id, ctx=ast.Store()), op=ast.Add(), value=v.args[0]), node)
-        return node
-
     def visit_Return(self, node):
         self.generic_visit(node)
         if isinstance(node.value, ast.IfExp):
